@@ -5,7 +5,7 @@
    every run (harness/props/c19.py); [sub n] is the model at recursion fuel n, and the theorems
    hold at every fuel. *)
 From Coq Require Import List ZArith Bool String.
-From BT Require Import Gen.ClassTable Gen.SignSets Core.PyVal Core.Hint Core.Door Core.DoorProofs Core.DoorFuel.
+From BT Require Import Gen.ClassTable Gen.SignSets Core.PyVal Core.Hint Core.Door Core.DoorProofs Core.DoorFuel Core.DoorStable.
 Import ListNotations.
 
 (* 1. Reflexivity, three-valued: for every hint of the grammar, is_subhint(h, h) and
@@ -75,6 +75,25 @@ Proof.
   - destruct (eqh _ h h); [now left|congruence|now right|congruence].
 Qed.
 Print Assumptions C19_reflexive_true_or_raises.
+
+(* 7. Fuel independence: an answer of the model at ANY fuel, unless it is "out of fuel", is the
+      answer of [is_subhint]; and every fuel at or above the supplied one gives that answer.  The
+      theorems above that are stated "at every fuel n" (1, 2, 3) are therefore statements about
+      the one function [is_subhint] that the correspondence check compares with beartype. *)
+Theorem C19_model_fuel_independent : forall n a b,
+  (sub n a b <> RFuel -> sub n a b = is_subhint a b)
+  /\ (2 * (hsize a + hsize b) + 2 <= n -> sub n a b = is_subhint a b /\ eqh n a b = hint_equal a b).
+Proof.
+  intros n a b. split; [exact (sub_any_fuel n a b)|].
+  intros Hn. split; [exact (sub_fuel_independent n a b Hn)|exact (eqh_fuel_independent n a b Hn)].
+Qed.
+Print Assumptions C19_model_fuel_independent.
+
+(* ... hence soundness (3) on the public function itself *)
+Theorem C19_sound_simple_public : forall pb a b x,
+  simple a = true -> simple b = true -> is_subhint a b = RT -> sat pb a x = true -> sat pb b x = true.
+Proof. intros pb a b x Ha Hb. unfold is_subhint. exact (sound_simple pb _ a b x Ha Hb). Qed.
+Print Assumptions C19_sound_simple_public.
 
 (* Non-vacuity of (3): list[bool] <= Sequence[int | str] and tuple[bool, str] <= tuple[object-free union, ...]. *)
 Example C19_example :
